@@ -46,10 +46,6 @@ exclusions_on()
 }
 
 //! narrow work-arounds are counted per finding (same counter names as the run-time uses for whole-case signatures)
-const char* const SIG_F1 = "C14:frame-entry:current-time>=frame-end:next-record-is-event";
-const char* const SIG_F2 = "C14:lm-gradient:build-without-openmp";
-const char* const SIG_F3 = "C14:lm-cache:accepted-prompts-multiple-of-cache-size";
-const char* const SIG_F4 = "C14:lm-additive:tof-bins>1";
 const char* const SIG_F5 = "C14:file-output:tof-template-mashed-to-one-tof-bin";
 void
 excluded(const char* sig)
@@ -57,6 +53,23 @@ excluded(const char* sig)
   vf::stats().excluded_known++;
   vf::stats().count(std::string("excluded:") + sig);
 }
+
+//! switches STIR's assert()s off (= what a Release build executes) for a scope
+struct AssertsOff
+{
+  bool active;
+  explicit AssertsOff(bool a)
+      : active(a)
+  {
+    if (active)
+      stir_verif::asserts_on = false;
+  }
+  ~AssertsOff()
+  {
+    if (active)
+      stir_verif::asserts_on = true;
+  }
+};
 
 // ---- temporary files: one directory per case under VERIF_TMP, removed at the end of the case -------------
 std::string
@@ -451,38 +464,20 @@ expected(const World& w, const Selection& sel, bool store_prompts, bool store_de
   return ex;
 }
 
-//! finding C14-F1: LmToProjData enters the event loop of a frame without testing that the current time is before the
-//! frame's end.  Trigger: when the records up to the first time mark >= start have been skipped (in a multi-frame run:
-//! when the previous frame has consumed the mark that ended it) the current time is already >= end and the next record
-//! is an event.  This predicate only decides the exclusion; it follows the positions of one process_data() call.
+//! statistics only: when the records up to the first time mark >= start have been skipped, the current time is already
+//! >= end and the next record is an event (a frame without a time mark inside: nothing of that stretch belongs to it)
 bool
-frame_entry_hazard(const World& w, const std::vector<std::pair<long, long>>& frames)
+frame_over_at_entry(const World& w, long s_ms, long e_ms)
 {
   std::size_t pos = 0;
   long cur = 0;
-  const std::size_t n = w.recs.size();
-  for (const auto& f : frames)
+  while (cur < s_ms && pos < w.recs.size())
     {
-      while (cur < f.first && pos < n)
-        {
-          const Rec& r = w.recs[pos++];
-          if (r.kind == 0)
-            cur = long(r.ms);
-        }
-      if (cur >= f.second && pos < n && w.recs[pos].kind != 0)
-        return true;
-      while (pos < n)
-        {
-          const Rec& r = w.recs[pos++];
-          if (r.kind == 0)
-            {
-              cur = long(r.ms);
-              if (cur >= f.second)
-                break;
-            }
-        }
+      const Rec& r = w.recs[pos++];
+      if (r.kind == 0)
+        cur = long(r.ms);
     }
-  return false;
+  return cur >= e_ms && pos < w.recs.size() && w.recs[pos].kind != 0;
 }
 
 // ---- running LmToProjData -----------------------------------------------------------------------------
@@ -758,14 +753,6 @@ check_likelihood(const json& c, const World& w, const Selection& sel, const std:
       SplitMix g(L["dseed"].get<uint64_t>() ^ 0x5151ULL);
       for (auto& v : addv)
         v = float(g.real(0.5, 1.5));
-      if (use_add && w.tmpl->get_num_tof_poss() > 1 && exclusions_on())
-        { // finding C14-F4 (additive term of TOF data is looked up in the wrong TOF bin): excluded narrowly by giving all
-          // TOF bins of a spatial bin the same additive value (TOF is the outermost index of the enumeration)
-          const std::size_t per_tof = addv.size() / std::size_t(w.tmpl->get_num_tof_poss());
-          for (std::size_t i = per_tof; i < addv.size(); ++i)
-            addv[i] = addv[i % per_tof];
-          excluded(SIG_F4);
-        }
       w.index.vec_to_projdata(*add, addv);
       for (auto it = mult->begin_all(); it != mult->end_all(); ++it)
         *it = float(g.real(0.5, 2.));
@@ -785,14 +772,7 @@ check_likelihood(const json& c, const World& w, const Selection& sel, const std:
       lmobj.set_use_subset_sensitivities(true);
       lmobj.set_cache_path(dir);
       lmobj.set_recompute_cache(true);
-      long lmcache = L["lmcache"].get<long>();
-      if (lmcache > 0 && exclusions_on() && ex.n_prompts_acc % lmcache == 0)
-        { // finding C14-F3: a number of events that is a multiple of the cache size leaves an empty last batch,
-          // on which LM_distributable_computation's assert(!record_ptr.empty()) fires
-          while (ex.n_prompts_acc % lmcache == 0)
-            ++lmcache;
-          excluded(SIG_F3);
-        }
+      const long lmcache = L["lmcache"].get<long>();
       lmobj.set_cache_max_size(static_cast<unsigned long>(lmcache)); // 0: read from the list-mode source at every call
 
       pdobj.set_proj_data_sptr(data);
@@ -864,15 +844,23 @@ check_likelihood(const json& c, const World& w, const Selection& sel, const std:
       return Result::pass();
     }
   const std::vector<double> gref = P.back(q);
-#ifdef STIR_OPENMP
-  const bool gradient_lost = false;
-#else
-  // finding C14-F2: without OpenMP LM_distributable_computation never adds its work image to the output
-  const bool gradient_lost = exclusions_on();
-#endif
+
+  // A number of cached prompts that is a multiple of 'max cache size' leaves an EMPTY last cache batch (read_listmode_batch
+  // stops a batch when the cache is full and only finds the end of the frame in the next one).  LM_distributable_computation
+  // has assert(!record_ptr.empty()), which then fires in builds with assertions, although its loop over zero events is
+  // correct (the gradient is checked below as for every other case).  The property does not speak about that internal
+  // assertion, so for exactly this class the list-mode calls run with the assertions off (= what a Release build executes).
+  // (With the assertion on, the process would terminate: the running HighResWallClockTimer asserts in its destructor.)
+  const long lmcache_used = L["lmcache"].get<long>();
+  const bool empty_last_cache_batch = lmcache_used > 0 && ex.n_prompts_acc % lmcache_used == 0;
+  if (empty_last_cache_batch)
+    stats().cls("likelihood: empty last cache batch (list-mode calls with assertions off = Release behaviour)");
 
   shared_ptr<target_type> g_lm(target->get_empty_copy()), g_pd(target->get_empty_copy());
-  lmobj.compute_sub_gradient_without_penalty_plus_sensitivity(*g_lm, *target, subset);
+  {
+    AssertsOff guard(empty_last_cache_batch);
+    lmobj.compute_sub_gradient_without_penalty_plus_sensitivity(*g_lm, *target, subset);
+  }
   pdobj.compute_sub_gradient_without_penalty_plus_sensitivity(*g_pd, *target, subset);
   std::vector<double> vlm, vpd;
   to_vec(vlm, *g_lm);
@@ -913,11 +901,8 @@ check_likelihood(const json& c, const World& w, const Selection& sel, const std:
       std::cerr << "DEBUG F4: max |LM gradient - reference with additive term of the last TOF bin| = " << md << " (scale " << max_abs(g2) << ")\n";
     }
   // tolerance 1e-4 of the maximum (float accumulation in a different order; observed maxima are in the evidence)
-  if (gradient_lost)
-    excluded(SIG_F2);
-  else
-    PROPAGATE(compare_vec(vlm, vpd, 1e-4, "list-mode gradient (data term) vs projection-data gradient of the histogram " + ctx,
-                          "max rel diff LM gradient vs projdata gradient"));
+  PROPAGATE(compare_vec(vlm, vpd, 1e-4, "list-mode gradient (data term) vs projection-data gradient of the histogram " + ctx,
+                        "max rel diff LM gradient vs projdata gradient"));
   // the explicit reference is built from a symmetry-free matrix: rows that STIR derives through a symmetry operation may
   // differ from directly computed ones for LORs running exactly along voxel boundaries (the subject and the "tie screen" of
   // C03, frequent on these very small scanners), and with symmetries STIR groups bins into subsets by their BASIC view.
@@ -927,7 +912,7 @@ check_likelihood(const json& c, const World& w, const Selection& sel, const std:
   if (ref_applicable)
     PROPAGATE(compare_vec(vpd, gref, 1e-4, "projection-data gradient of the histogram vs explicit matrix reference " + ctx,
                           "max rel diff projdata gradient vs explicit reference"));
-  if (!gradient_lost && ref_applicable)
+  if (ref_applicable)
     {
       PROPAGATE(compare_vec(vlm, gref, 1e-4, "list-mode gradient (data term) vs explicit matrix reference " + ctx,
                             "max rel diff LM gradient vs explicit reference"));
@@ -939,7 +924,10 @@ check_likelihood(const json& c, const World& w, const Selection& sel, const std:
       // num_tof_poss > 1 here, is_tof_data() in the projection-data class), so the sensitivity and the full gradient
       // are compared for non-TOF data only
       shared_ptr<target_type> f_lm(target->get_empty_copy()), f_pd(target->get_empty_copy());
-      lmobj.compute_sub_gradient_without_penalty(*f_lm, *target, subset);
+      {
+        AssertsOff guard(empty_last_cache_batch);
+        lmobj.compute_sub_gradient_without_penalty(*f_lm, *target, subset);
+      }
       pdobj.compute_sub_gradient_without_penalty(*f_pd, *target, subset);
       std::vector<double> a, b, s_lm, s_pd;
       to_vec(a, *f_lm);
@@ -962,7 +950,7 @@ check_likelihood(const json& c, const World& w, const Selection& sel, const std:
         md = std::max(md, std::fabs(a[i] - b[i]));
       if (scale > 0)
         stats().maxi("max rel diff LM full gradient vs projdata full gradient", md / scale);
-      VF_CHECK(gradient_lost || md <= 1e-4 * scale, "list-mode gradient (with sensitivity) vs projection-data gradient ", ctx, ": max |diff| ", md, " scale ", scale);
+      VF_CHECK(md <= 1e-4 * scale, "list-mode gradient (with sensitivity) vs projection-data gradient ", ctx, ": max |diff| ", md, " scale ", scale);
     }
   stats().cls("likelihood: compared");
   return Result::pass();
@@ -1038,7 +1026,7 @@ check(const json& c)
       if (boundary_marks)
         stats().cls("time mark exactly on a frame boundary");
       std::vector<double> sum(w.bins.size(), 0.);
-      bool hazard_any = false;
+      bool additivity_decidable = true;
       long oor = 0, neg = 0;
       for (std::size_t f = 0; f <= frames.size(); ++f)
         {
@@ -1049,14 +1037,8 @@ check(const json& c)
           sel.use_time = true;
           sel.s_ms = f < frames.size() ? frames[f].first : frames.front().first;
           sel.e_ms = f < frames.size() ? frames[f].second : frames.back().second;
-          const bool hazard = frame_entry_hazard(w, { std::make_pair(sel.s_ms, sel.e_ms) });
-          if (hazard && f < frames.size())
-            hazard_any = true;
-          if (hazard && exclusions_on())
-            { // finding C14-F1, excluded narrowly: this frame is not run
-              excluded(SIG_F1);
-              continue;
-            }
+          if (frame_over_at_entry(w, sel.s_ms, sel.e_ms))
+            stats().cls("frame already over when its first record is reached (events follow)");
           const Expect ex = expected(w, sel, store_prompts, store_delayeds);
           oor += ex.n_out_of_range;
           neg += ex.n_negative_bins;
@@ -1079,12 +1061,12 @@ check(const json& c)
           if (f < frames.size())
             {
               if (ref_hist.empty())
-                hazard_any = true; // no in-memory run for this frame: additivity below not decidable
+                additivity_decidable = false; // no in-memory run for this frame
               else
                 for (std::size_t i = 0; i < sum.size(); ++i)
                   sum[i] += ref_hist[i];
             }
-          else if (!ref_hist.empty() && !(hazard_any && exclusions_on()))
+          else if (!ref_hist.empty() && additivity_decidable)
             { // frames of a partition add up to the whole interval (STIR's outputs only)
               PROPAGATE(compare_hist(w, sum, ref_hist, cat("sum over the ", frames.size(), " frames of the partition vs the run over the whole interval")));
               stats().cls("partition additivity checked");
@@ -1094,11 +1076,6 @@ check(const json& c)
       for (std::size_t k = 0; k < cfgs.size(); ++k)
         if (cfgs[k].to_file)
           {
-            if (frame_entry_hazard(w, frames) && exclusions_on())
-              {
-                excluded(SIG_F1);
-                continue;
-              }
             const auto res = run_lm_to_projdata(w, lm, frames, 0, cfgs[k], store_prompts, store_delayeds, dir.path);
             VF_CHECK(res.size() == frames.size(), "multi-frame run wrote ", res.size(), " files for ", frames.size(), " frames");
             for (std::size_t f = 0; f < frames.size(); ++f)
